@@ -99,9 +99,15 @@ func flipOp(op token.Token) token.Token {
 // of accepted operators for the orientation xRe op yRe.
 func guardCmp(name, xRe, ops, yRe string) Guard {
 	g := guardCmp1(name, xRe, ops, yRe)
-	if strings.TrimSpace(ops) == "==" {
+	switch strings.TrimSpace(ops) {
+	case "==":
 		// x == y also holds behind x <= y and x >= y (e.g. two early returns for > and <)
 		g.Split = []Guard{guardCmp1(name+" [<=]", xRe, "<=", yRe), guardCmp1(name+" [>=]", xRe, ">=", yRe)}
+	case "<":
+		// x < y also holds behind x <= y and x != y (early returns for == and >)
+		g.Split = []Guard{guardCmp1(name+" [<=]", xRe, "<=", yRe), guardCmp1(name+" [!=]", xRe, "!=", yRe)}
+	case ">":
+		g.Split = []Guard{guardCmp1(name+" [>=]", xRe, ">=", yRe), guardCmp1(name+" [!=]", xRe, "!=", yRe)}
 	}
 	return g
 }
